@@ -5,6 +5,10 @@
 (*               bits, lres ("ok" or the exception class), lkey (relation of the     *)
 (*               loaded key to the written one)                                       *)
 (*  kind "cmp":  two key objects compared: eq, eq_rev, ne, heq, fpeq, beq, rt, err       *)
+(*  kind "hist": one sealed file loaded several times in one process: fk, steps =      *)
+(*               sequence of [lp, lc, res ("ok" = the sealed key, signing-capable; else   *)
+(*               the exception class or what was loaded instead), loaded (a key came     *)
+(*               back)]; one step of the design spec's history machine per load            *)
 (* The step installs the observation in the design spec's variables and evaluates    *)
 (* the design spec's invariants on that state.                                       *)
 EXTENDS KeyIO, Sequences, Json, IOUtils, TLCExt
@@ -56,10 +60,27 @@ CmpStep ==
             \cup Clause(PublicStable' /\ R.rt, "P_public_encoding_unstable")
             \cup Clause(DistinctDiffer', "C_distinct_keys_share_encoding")
 
+\* ---- history records: step l replays load l
+HS == R.steps[l]
+HistStep ==
+  /\ mode' = "hist" /\ pc' = "hist"
+  /\ hfile' = R.fk
+  /\ hist' = Append(hist, HEntry(HS.lp, HS.lc, HS.res, HS.loaded))
+  /\ kcache' = IF R.fk \in HKinds /\ HS.lp \in HPass THEN CacheAfter(R.fk, HS.lp, kcache) ELSE kcache
+  /\ UNCHANGED <<fvars, cvars>>
+  /\ bad' = IF ~(R.fk \in HKinds /\ HS.lp \in HPass /\ HS.lc \in HClass /\ Len(R.steps) <= MaxHist)
+            THEN {"X_not_a_case"} ELSE
+            Clause(HistRight', "P_correct_passphrase_rejected")
+            \cup Clause(HistWrong', "P_loaded_without_passphrase")
+            \cup Clause(HistOther', "C_loaded_through_other_class")
+
+Last == IF R.kind = "hist" THEN Len(R.steps) + 1 ELSE 2
 TInit == tid \in 1..Len(Batch) /\ l = 1 /\ bad = {} /\ Init /\ mode = "file"
-TNext == /\ l = 1 /\ l' = 2 /\ tid' = tid
-         /\ IF R.kind = "file" THEN FileStep ELSE CmpStep
+TNext == /\ l < Last /\ l' = l + 1 /\ tid' = tid
+         /\ CASE R.kind = "file" -> FileStep /\ UNCHANGED hvars
+              [] R.kind = "cmp"  -> CmpStep /\ UNCHANGED hvars
+              [] OTHER           -> HistStep
 TSpec == TInit /\ [][TNext]_tvars
-Report == /\ (bad # {} => PrintT(<<"VERDICT", tid, bad>>))
-          /\ (l = 2 => PrintT(<<"DONE", tid>>))
+Report == /\ (bad # {} => PrintT(<<"VERDICT", tid, l - 1, bad>>))
+          /\ (l = Last => PrintT(<<"DONE", tid>>))
 =============================================================================
